@@ -259,4 +259,133 @@ theorem wfMetaInfo_encMeta (m : MetaInfo) (hl : metaLen m < 2 ^ 64) : wfMetaInfo
   · simp [natLenOk_be]
   · simp
 
+/-! ### KeyLocator -/
+
+def keyLocTVs (k : KeyLoc) : List TV :=
+  optL k.name (fun n => (7, encNameInner n)) ++ optL k.digest (fun v => (29, v))
+
+theorem encKeyLoc_eq (E : EncSpecs) (k : KeyLoc) : encKeyLoc k = encTVs (keyLocTVs k) := by
+  simp only [encKeyLoc, keyLocTVs, encTVs_append]
+  rw [optB_eq_encTVs k.name _ _ (encNameField_eq E 7), optB_eq_encTVs k.digest _ _ (encBinField_eq 29)]
+
+theorem keyLocTVs_ok (E : EncSpecs) (k : KeyLoc) (hl : keyLocLen k < 2 ^ 64) : ∀ p ∈ keyLocTVs k, TVok p := by
+  intro p hp
+  simp only [keyLocTVs, List.mem_append, mem_optL] at hp
+  rcases hp with ⟨n, hn, rfl⟩ | ⟨v, hv, rfl⟩
+  · simp only [keyLocLen, hn, optN, nameFieldLen] at hl
+    exact TVok_mk _ _ (by decide) (by rw [E.nameLen_eq]; omega)
+  · simp only [keyLocLen, hv, optN, binFieldLen] at hl
+    exact TVok_mk _ _ (by decide) (by omega)
+
+theorem wfKeyLocator_encKeyLoc (E : EncSpecs) (k : KeyLoc) (hn : ∀ n, k.name = some n → NameValid n)
+    (hl : keyLocLen k < 2 ^ 64) : wfKeyLocator (encKeyLoc k) = true := by
+  simp only [wfKeyLocator, encKeyLoc_eq E, tlvs_encTVs _ (keyLocTVs_ok E k hl)]
+  apply all_mkTlvs
+  intro p hp o h
+  simp only [keyLocTVs, List.mem_append, mem_optL] at hp
+  rcases hp with ⟨n, hn', rfl⟩ | ⟨v, hv, rfl⟩
+  · simp only [keyLocLen, hn', optN, nameFieldLen] at hl
+    simp [wfName_encNameInner n (hn n hn') (by omega)]
+  · simp
+
+/-! ### ValidityPeriod -/
+
+def validityTVs (v : Bytes × Bytes) : List TV := [(254, v.1), (255, v.2)]
+
+theorem encValidity_eq (v : Bytes × Bytes) : encValidity v = encTVs (validityTVs v) := by
+  simp [encValidity, validityTVs, encBinField_eq]
+
+theorem encValidity_length (v : Bytes × Bytes) : (encValidity v).length = validityLen v := by
+  simp [encValidity, validityLen, encBinField, binFieldLen, encTL_length]; omega
+
+theorem validityTVs_ok (v : Bytes × Bytes) (hl : validityLen v < 2 ^ 64) : ∀ p ∈ validityTVs v, TVok p := by
+  intro p hp
+  simp only [validityLen, binFieldLen] at hl
+  simp only [validityTVs, List.mem_cons, List.not_mem_nil, or_false] at hp
+  rcases hp with rfl | rfl
+  · exact TVok_mk _ _ (by decide) (by omega)
+  · exact TVok_mk _ _ (by decide) (by omega)
+
+/-! ### SignatureInfo -/
+
+def sigTVs (s : SigInfo) : List TV :=
+  [(27, be (natLen s.typ) s.typ)] ++ optL s.keyLoc (fun k => (28, encKeyLoc k))
+    ++ optL s.nonce (fun v => (38, v)) ++ optL s.time (fun x => (40, be (natLen x) x))
+    ++ optL s.seq (fun x => (42, be (natLen x) x)) ++ optL s.validity (fun v => (253, encValidity v))
+
+theorem encSigInfo_eq (E : EncSpecs) (s : SigInfo) : encSigInfo s = encTVs (sigTVs s) := by
+  simp only [encSigInfo, sigTVs, encTVs_append, encTVs_single]
+  rw [optB_eq_encTVs s.keyLoc _ (fun k => (28, encKeyLoc k)) (by intro k; simp [encTV, E.keyLocLen_eq]),
+    optB_eq_encTVs s.nonce _ _ (encBinField_eq 38),
+    optB_eq_encTVs s.time _ _ (encNatField_eq 40), optB_eq_encTVs s.seq _ _ (encNatField_eq 42),
+    optB_eq_encTVs s.validity _ (fun v => (253, encValidity v)) (by intro v; simp [encTV, encValidity_length]),
+    encNatField_eq]
+
+theorem sigTVs_ok (E : EncSpecs) (s : SigInfo) (hl : sigInfoLen s < 2 ^ 64) : ∀ p ∈ sigTVs s, TVok p := by
+  intro p hp
+  simp only [sigTVs, List.mem_append, mem_optL, List.mem_cons, List.not_mem_nil, or_false] at hp
+  rcases hp with ((((rfl | ⟨k, hk, rfl⟩) | ⟨v, hv, rfl⟩) | ⟨x, hx, rfl⟩) | ⟨x, hx, rfl⟩) | ⟨v, hv, rfl⟩
+  · have := natLen_cases s.typ
+    exact TVok_mk _ _ (by decide) (by simp only [be_length]; omega)
+  · simp only [sigInfoLen, hk, optN] at hl
+    exact TVok_mk _ _ (by decide) (by rw [E.keyLocLen_eq]; omega)
+  · simp only [sigInfoLen, hv, optN, binFieldLen] at hl
+    exact TVok_mk _ _ (by decide) (by omega)
+  · have := natLen_cases x
+    exact TVok_mk _ _ (by decide) (by simp only [be_length]; omega)
+  · have := natLen_cases x
+    exact TVok_mk _ _ (by decide) (by simp only [be_length]; omega)
+  · simp only [sigInfoLen, hv, optN] at hl
+    exact TVok_mk _ _ (by decide) (by rw [encValidity_length]; omega)
+
+theorem wfSigInfo_encSigInfo (E : EncSpecs) (s : SigInfo) (hv : SigInfoValid s) (hl : sigInfoLen s < 2 ^ 64) :
+    wfSigInfo (encSigInfo s) = true := by
+  simp only [wfSigInfo, encSigInfo_eq E, tlvs_encTVs _ (sigTVs_ok E s hl), Bool.and_eq_true]
+  refine ⟨by simp [sigTVs, mkTlvs], ?_⟩
+  apply all_mkTlvs
+  intro p hp o h
+  simp only [sigTVs, List.mem_append, mem_optL, List.mem_cons, List.not_mem_nil, or_false] at hp
+  rcases hp with ((((rfl | ⟨k, hk, rfl⟩) | ⟨v, hv', rfl⟩) | ⟨x, hx, rfl⟩) | ⟨x, hx, rfl⟩) | ⟨v, hv', rfl⟩
+  · simp [natLenOk_be]
+  · simp only [sigInfoLen, hk, optN] at hl
+    simp [wfKeyLocator_encKeyLoc E k (hv.2.2.1 k hk) (by omega)]
+  · simp
+  · simp [natLenOk_be]
+  · simp [natLenOk_be]
+  · simp only [sigInfoLen, hv', optN] at hl
+    simp [encValidity_eq, tlvs_encTVs _ (validityTVs_ok v (by omega))]
+
+/-! ### Links (ForwardingHint) -/
+
+def linksTVs (ns : List Name) : List TV := ns.map (fun n => (7, encNameInner n))
+
+theorem encLinks_eq (E : EncSpecs) (ns : List Name) : encLinks ns = encTVs (linksTVs ns) := by
+  induction ns with
+  | nil => rfl
+  | cons n ns ih =>
+    have : encLinks (n :: ns) = encNameField 7 n ++ encLinks ns := by simp [encLinks]
+    rw [this, ih, encNameField_eq E]; simp [linksTVs]
+
+theorem nameLen_le_linksLen (ns : List Name) (n : Name) (h : n ∈ ns) : nameLen n ≤ linksLen ns := by
+  have := sum_map_ge (nameFieldLen 7) ns n h
+  unfold nameFieldLen at this
+  unfold linksLen nameFieldLen; omega
+
+theorem linksTVs_ok (E : EncSpecs) (ns : List Name) (hl : linksLen ns < 2 ^ 64) : ∀ p ∈ linksTVs ns, TVok p := by
+  intro p hp
+  simp only [linksTVs, List.mem_map] at hp
+  obtain ⟨n, hn, rfl⟩ := hp
+  have := nameLen_le_linksLen ns n hn
+  exact TVok_mk _ _ (by decide) (by rw [E.nameLen_eq]; omega)
+
+theorem wfLinks_encLinks (E : EncSpecs) (ns : List Name) (hv : ∀ n ∈ ns, NameValid n)
+    (hl : linksLen ns < 2 ^ 64) : wfLinks (encLinks ns) = true := by
+  simp only [wfLinks, encLinks_eq E, tlvs_encTVs _ (linksTVs_ok E ns hl)]
+  apply all_mkTlvs
+  intro p hp o h
+  simp only [linksTVs, List.mem_map] at hp
+  obtain ⟨n, hn, rfl⟩ := hp
+  have := nameLen_le_linksLen ns n hn
+  simp [wfName_encNameInner n (hv n hn) (by omega)]
+
 end Ndn.C03
